@@ -596,6 +596,18 @@ OPEN_WITNESSES = [
   </xs:sequence></xs:complexType></xs:element>
 </xs:schema>
 """}, "docs": ["<r><b>1</b><b>2</b></r>", "<r><o>2001-01-01</o><c>true</c></r>"]},
+    # the base type's repeating choice becomes the compound field `choice` (more branches than max_name_parts); the
+    # derived type declares an attribute called choice: its dataclass field replaces the inherited compound field
+    {"name": "F20-derived-field-shadows-compound-field", "root": "r", "sources": {"main.xsd": XSH + """>
+  <xs:complexType name="Node"><xs:choice maxOccurs="unbounded">
+    <xs:element name="a" type="xs:int"/><xs:element name="b" type="xs:date"/>
+    <xs:element name="c" type="xs:boolean"/><xs:element name="d" type="xs:time"/>
+  </xs:choice></xs:complexType>
+  <xs:element name="r"><xs:complexType><xs:complexContent><xs:extension base="Node">
+    <xs:attribute name="choice" type="xs:int"/>
+  </xs:extension></xs:complexContent></xs:complexType></xs:element>
+</xs:schema>
+"""}, "docs": ['<r choice="1"><a>1</a><c>true</c><a>2</a></r>']},
     {"name": "F11-namespaces-style-shadowing", "root": "envelope", "variants": [{"structure_style": "namespaces"}, {"structure_style": "namespaces"}],
      "sources": {"main.xsd": XSH + """ xmlns:a="http://example.com/ns/a">
   <xs:import namespace="http://example.com/ns/a" schemaLocation="part1.xsd"/>
@@ -715,6 +727,63 @@ SHAPE_PROGRAMS = [
 </xs:schema>
 """}, "docs": ['<cfg><a>1</a><other>2001-01-01</other></cfg>', '<cfg><version>1.0</version><a>2</a><kind>k</kind><note>n</note></cfg>',
                '<cfg><a>3</a><level>5</level><flag>true</flag></cfg>']},
+    # anonymous types that reuse an element NAME on different nesting depths of one class (Root.Y, Root.X.Y, Root.X.Z.Y):
+    # the inner classes are looked up by name, breadth-first from the using class (ClassUtils.find_nested)
+    {"name": "S4-same-named-anonymous-types-across-depths", "root": "{urn:a}root", "sources": {"main.xsd": XSH + """ xmlns:a="urn:a" targetNamespace="urn:a" elementFormDefault="qualified">
+  <xs:element name="root"><xs:complexType><xs:sequence>
+    <xs:element name="y"><xs:complexType>
+      <xs:sequence><xs:element name="p" type="xs:int"/></xs:sequence>
+      <xs:attribute name="k" type="xs:string"/></xs:complexType></xs:element>
+    <xs:element name="x"><xs:complexType><xs:sequence>
+      <xs:element name="y"><xs:complexType>
+        <xs:sequence><xs:element name="q" type="xs:string"/></xs:sequence>
+        <xs:attribute name="m" type="xs:string"/></xs:complexType></xs:element>
+      <xs:element name="z" minOccurs="0"><xs:complexType><xs:sequence>
+        <xs:element name="y" maxOccurs="unbounded"><xs:complexType><xs:simpleContent><xs:extension base="xs:date">
+          <xs:attribute name="n" type="xs:int"/></xs:extension></xs:simpleContent></xs:complexType></xs:element>
+        <xs:element name="x" type="xs:boolean"/>
+      </xs:sequence></xs:complexType></xs:element>
+    </xs:sequence></xs:complexType></xs:element>
+    <xs:element name="z" type="xs:time" minOccurs="0"/>
+  </xs:sequence></xs:complexType></xs:element>
+</xs:schema>
+"""}, "docs": ['<a:root xmlns:a="urn:a"><a:y k="1"><a:p>1</a:p></a:y><a:x><a:y m="2"><a:q>s</a:q></a:y></a:x></a:root>',
+               '<root xmlns="urn:a"><y><p>2</p></y><x><y><q>t</q></y><z><y n="3">2001-01-01</y><y>1999-12-31</y><x>true</x></z></x><z>12:00:00</z></root>']},
+    # elements and attributes named like the fields the library invents: value (text field), content (mixed content),
+    # any_element / any_attributes / other_element (wildcards), choice (compound field), type / nil (xsi attributes)
+    {"name": "S5-library-field-names-as-schema-names", "root": "doc", "sources": {"main.xsd": XSH + """>
+  <xs:complexType name="Measure"><xs:simpleContent><xs:extension base="xs:decimal">
+    <xs:attribute name="value" type="xs:string"/><xs:attribute name="unit" type="xs:string"/>
+    <xs:attribute name="content" type="xs:int"/>
+  </xs:extension></xs:simpleContent></xs:complexType>
+  <xs:complexType name="Open"><xs:sequence>
+    <xs:element name="any_element" type="xs:int"/>
+    <xs:element name="other_element" type="xs:date" minOccurs="0"/>
+    <xs:any namespace="##other" processContents="lax" minOccurs="0" maxOccurs="unbounded"/>
+  </xs:sequence>
+    <xs:attribute name="any_attributes" type="xs:string"/><xs:attribute name="other_attributes" type="xs:int"/>
+    <xs:attribute name="type" type="xs:string"/><xs:attribute name="nil" type="xs:string"/>
+    <xs:anyAttribute namespace="##other" processContents="lax"/>
+  </xs:complexType>
+  <xs:complexType name="Text" mixed="true"><xs:sequence>
+    <xs:element name="content" type="xs:int" minOccurs="0"/><xs:element name="value" type="xs:date" minOccurs="0"/>
+  </xs:sequence><xs:attribute name="content" type="xs:string"/></xs:complexType>
+  <xs:complexType name="Pick"><xs:sequence><xs:element name="value" type="xs:time"/>
+    <xs:choice minOccurs="0" maxOccurs="unbounded">
+      <xs:element name="choice" type="xs:int"/><xs:element name="a" type="xs:date"/><xs:element name="b" type="xs:boolean"/>
+      <xs:element name="c" type="xs:decimal"/><xs:element name="choice_1" type="xs:gYear"/>
+    </xs:choice></xs:sequence><xs:attribute name="choice" type="xs:int"/></xs:complexType>
+  <xs:element name="doc"><xs:complexType><xs:sequence>
+    <xs:element name="m" type="Measure" maxOccurs="unbounded"/>
+    <xs:element name="open" type="Open" minOccurs="0"/>
+    <xs:element name="text" type="Text" minOccurs="0"/>
+    <xs:element name="pick" type="Pick" minOccurs="0"/>
+    <xs:element name="value" type="xs:string" minOccurs="0"/>
+  </xs:sequence><xs:attribute name="value" type="xs:int"/></xs:complexType></xs:element>
+</xs:schema>
+"""}, "docs": ['<doc value="3"><m value="v" unit="kg" content="1">1.50</m><m>2</m><value>s</value></doc>',
+               '<doc><m unit="g">0.5</m><open any_attributes="x" other_attributes="2" type="t" nil="n" xmlns:f="urn:f" f:att="q"><any_element>1</any_element><other_element>2001-01-01</other_element><f:w>1</f:w><f:v/></open></doc>',
+               '<doc><m>1</m><text content="c">a<content>1</content>b<value>2001-01-01</value>c</text><pick choice="4"><value>12:00:00</value><choice>1</choice><b>true</b><choice_1>1999</choice_1><a>2001-01-01</a><choice>2</choice><c>1.5</c></pick></doc>']},
 ]
 
 
@@ -811,6 +880,13 @@ def run(ck: Check):
             ck.failure(classify_codegen(run) or "codegen-failed",
                        f"code generation / import failed at {g.get('stage')}: {e.get('type')}: {(e.get('message') or '')[:160]}",
                        replay_of(run, error=e))
+    # a variant (output-only options) that fails to generate is reported above; the program's base runs are still judged:
+    # the failed variant is replaced by its base run (its comparisons become trivial)
+    for p in programs:
+        for rr in p["runs"]:
+            b = rr["oset"]["base"]
+            if b is not None and rr["res"]["status"] != "ok" and p["runs"][b]["res"]["status"] == "ok":
+                rr["res"], rr["substituted"] = p["runs"][b]["res"], True
     good_prog = [p for p in programs if all(rr["res"]["status"] == "ok" for rr in p["runs"])]
 
     # ---------------- option matrix: output-only options must not change what is accepted / produced
@@ -820,7 +896,7 @@ def run(ck: Check):
     matrix_accept = []     # (run, base run, doc index, result a, result b): accepted by one, refused by the other
     for p in good_prog:
         for rr in p["runs"]:
-            if rr["oset"]["base"] is None:
+            if rr["oset"]["base"] is None or rr.get("substituted"):
                 continue
             base = p["runs"][rr["oset"]["base"]]
             for j, (a, b) in enumerate(zip(base["res"]["docs"], rr["res"]["docs"])):
@@ -1190,6 +1266,9 @@ def classify_pair(rr, tc, info):
         return "imported-no-namespace-schema-gets-importer-namespace"
     t = rr["p"]["schema"]["types"][tc[0]]
     word = info.get("word") or []
+    if "content" in (info.get("failed") or []) and rr["res"]["classes"][tc[1]].get("shadows_compound") \
+            and rr["oset"]["options"].get("compound_fields"):
+        return "derived-field-shadows-inherited-compound-field"
     if info.get("failed") == ["content"] and t["content"][0] in ("elems", "mixed"):
         names = cm_names(t["content"][1])
         dup = [q for q in set(word) if word.count(q) >= 2 and names.count(q) >= 2]
